@@ -383,7 +383,12 @@ def shapes_of_alt(a, key):
         return [("bind", "")]
     if k == "expr":
         # MapServer reads list expressions {a,b,c} only in CLASS / LABEL EXPRESSION
-        return [("expr", ""), ("listexpr", "")] if key == "expression" else [("expr", "")]
+        # ... and case-insensitive string comparisons "text"i in EXPRESSION / FILTER
+        if key == "expression":
+            return [("expr", ""), ("listexpr", ""), ("istring", "")]
+        if key == "filter":
+            return [("expr", ""), ("istring", "")]
+        return [("expr", "")]
     if k == "regex":
         # expression.json is referenced by many slots; MapServer reads /regex/ only in EXPRESSION / FILTER
         return [("regex", "")] if key in ("expression", "filter") else []
